@@ -1,4 +1,4 @@
-(* C04: the witness of finding C04-F1 and a non-trivial instance of the theorems' hypotheses *)
+(* C04: the former witness of finding C04-F1 and a non-trivial instance of the theorems' hypotheses *)
 From Coq Require Import List Bool Ascii Arith NArith Lia String.
 From TxVerif Require Import Lib.Bytes Lib.Hex Spec.C04 Spec.C04Oracle Gen.AuthConsts Model.Auth
   Proofs.C04Auth Proofs.C04Sim.
@@ -14,17 +14,15 @@ Definition w_env : env :=
      e_fs := [(high_path, FData (rep 32 99))]; e_provider := PNone;
      e_nonce := rep 32 78; e_cmpkey := rep 32 1 |}.
 
-Lemma high_path_refuted : exists e ops tr,
-  List.length (e_nonce e) = 32%nat /\ high_path_valid_cookie e = true /\
-  run (tab_hmac []) e ops = Some tr /\ oracle (tab_hmac []) e ops tr = false.
+(* the former witness of C04-F1 (repaired by a1fd963): the cookie is now read and used *)
+Lemma former_witness_ok : exists tr,
+  high_path_valid_cookie w_env = true /\
+  run (tab_hmac []) w_env [OOk DProto] = Some tr /\ oracle (tab_hmac []) w_env [OOk DProto] tr = true /\
+  In (auth_line (rep 32 99)) (List.concat tr).
 Proof.
-  exists w_env, [OOk DProto].
-  eexists. split; [reflexivity|]. split; [vm_compute; reflexivity|].
-  split; [vm_compute; reflexivity|]. vm_compute. reflexivity.
+  eexists. split; [vm_compute; reflexivity|]. split; [vm_compute; reflexivity|].
+  split; [vm_compute; reflexivity|]. vm_compute. tauto.
 Qed.
-
-Lemma unescape_roundtrip_refuted : exists p, unescape (esc_for_log p) <> Some p.
-Proof. exists [ch 233]. vm_compute. discriminate. Qed.
 
 (* a toy keyed function that is injective in the message: enough to instantiate the hypotheses *)
 Definition toy (k m : bytes) : bytes := firstn 4 k ++ m.
@@ -49,7 +47,7 @@ Lemma nonvacuous :
              In (EWrote (bs "AUTHENTICATE " ++ hex_upper (toy CLIENT_KEY x_msg) ++ [CR; LF])) (List.concat tr) /\
              In (EReady ROk) (List.concat tr).
 Proof.
-  split; [split; vm_compute; reflexivity|]. split; [apply toy_injective|].
+  split; [vm_compute; reflexivity|]. split; [apply toy_injective|].
   eexists. split; [vm_compute; reflexivity|]. split; [vm_compute; reflexivity|].
   split; vm_compute; tauto.
 Qed.
